@@ -255,7 +255,7 @@ def make_bumble_classifier(controllers, hosts):
 
     h2c[i]  : Controller.on_packet bound method scheduled by AsyncPipeSink
     c2h[i]  : Host.on_packet scheduled by Controller.send_hci_packet
-    adv[i]  : Controller.on_ll_advertising_pdu
+    adv[i]  : Controller.on_ll_advertising_pdu (except CONNECT_IND, which is link[i])
     link[j] : closures created in bumble/link.py (destination j read from the
               closure cells when recognisable)
     """
@@ -280,6 +280,11 @@ def make_bumble_classifier(controllers, hosts):
             elif name == 'on_ll_advertising_pdu':
                 i = cidx.get(id(selfobj))
                 if i is not None:
+                    # a CONNECT_IND opens the data channel to that controller: nothing sent on the new connection
+                    # can reach the peer before it, so it travels in the same FIFO as the link's data
+                    args = getattr(handle, '_args', None) or ()
+                    if args and type(args[0]).__name__ == 'ConnectInd':
+                        return ('link', i)
                     return ('adv', i)
             return None
         code = getattr(cb, '__code__', None)
